@@ -89,7 +89,10 @@ def execute(case):
             calls[0] += 1
             if calls[0] > cap:
                 raise seams.StepCap("more than %d cost evaluations in one call" % cap)
-            return real_cost(*a, **k)
+            c_ = real_cost(*a, **k)
+            if c_ != c_:
+                stats["nan_costs"] = stats.get("nan_costs", 0) + 1     # probe: the rare condition was hit
+            return c_
         obj.cost = counted_cost
         all_tols = []
         for step, op in enumerate(case["ops"]):
@@ -163,6 +166,9 @@ def execute(case):
                 except refsolve.RefSolveError:
                     stats["reference_failed"] = stats.get("reference_failed", 0) + 1
                     continue
+                if not np.isfinite(want):
+                    stats["reference_failed"] = stats.get("reference_failed", 0) + 1
+                    continue
                 stats["particles_recomputed"] = stats.get("particles_recomputed", 0) + 1
                 tol_ = 1e-5 * (1 + abs(want)) + solver.loss_slack(dict(case["loss"], spread=case["loss"].get("sigma"), weights=None), yhat)
                 if not abs(dist[i] - want) <= tol_:
@@ -195,7 +201,7 @@ def done(out, stats, log, isea, nontrivial):
 def gen_case(S, tier):
     rng = S("gen")
     for _ in range(200):
-        name = rng.choice(["SIR", "SIR_N", "SEIR", "SIS", "LIN3", "LOGI"])
+        name = rng.choice(["SIR", "SIR_N", "SIR_C", "SIR_C", "SEIR", "SIS", "LIN3", "LOGI"])
         c = solver.CATALOGUE[name]
         model = copy.deepcopy(c["model"])
         for pr in model["processes"]:
@@ -206,21 +212,32 @@ def gen_case(S, tier):
         x0 = list(c["x0"])
         t0 = 0.0
         tmax = min(c["tmax"], 20.0)
-        cls = rng.choice(["SquareLoss", "SquareLoss", "NormalLoss", "PoissonLoss"])
-        if cls == "PoissonLoss" and name not in ("SIR_N", "LIN3", "LOGI"):
+        cls = rng.choice(["SquareLoss", "SquareLoss", "NormalLoss", "PoissonLoss", "PoissonLoss"])
+        if name == "SIR_C":
+            cls = "PoissonLoss"        # counts; an epidemic that burns out leaves I ~ 1e-12 (of either sign)
+        if cls == "PoissonLoss" and name not in ("SIR_N", "SIR_C", "LIN3", "LOGI"):
             cls = "SquareLoss"
         obs_t = solver.gen_times(rng, t0, tmax, k=rng.randint(4, 8))
+        if name == "SIR_C":
+            obs_t = solver.gen_times(rng, t0, 40.0, k=rng.randint(4, 8), uniform=True)
+            obs_t = [t_ for t_ in obs_t] if obs_t[-1] > 25 else obs_t + [40.0]
         ns = rng.choice([1, 2]) if ref.n >= 2 else 1
         states = rng.sample(ref.state_names, ns)
+        zero_states = [nm for nm, v in zip(ref.state_names, x0) if v == 0]
+        if cls == "PoissonLoss" and zero_states and rng.random() < 0.7:
+            z = rng.choice(zero_states)
+            states = [z] + [s_ for s_ in states if s_ != z][:ns - 1]
         X = solver.safe_reference(ref, theta, x0, t0, obs_t)
         if X is None:
             continue
         idx = [ref.state_names.index(s) for s in states]
         y = X[:, idx] * (1.0 + np.array([[rng.uniform(-0.05, 0.05) for _ in idx] for _ in obs_t]))
         if cls == "PoissonLoss":
-            if X[:, idx].min() < 0.5:
+            # states that start at (or decay to) zero are allowed: the cost is then NaN for some prior draws
+            # (a tiny negative prediction from the integrator) and such draws must be rejected
+            if X[:, idx].min() < 0.0 or X[:, idx].max() < 2.0:
                 continue
-            y = np.rint(y)
+            y = np.rint(np.maximum(y, 0.0))
         loss = {"cls": cls, "states": states, "obs_t": obs_t, "y": y.tolist()}
         if cls == "NormalLoss":
             loss["sigma"] = round(rng.uniform(0.5, 2.0), 3)
@@ -238,6 +255,9 @@ def gen_case(S, tier):
                 # prior on log10 of the value; narrow so that kernels propose outside the support
                 c_ = np.log10(th)
                 parameters.append({"name": nm, "dist": "unif", "pars": [round(c_ - rng.uniform(0.1, 0.4), 4), round(c_ + rng.uniform(0.1, 0.4), 4)], "logscale": True})
+            elif d == "unif" and rng.random() < (0.7 if cls == "PoissonLoss" else 0.3):
+                # wide prior from zero: includes values where a state never leaves zero
+                parameters.append({"name": nm, "dist": "unif", "pars": [0.0, round(hi * rng.choice([1.0, 1.5]), 4)]})
             elif d == "unif":
                 w_ = (hi - lo) * rng.choice([0.15, 0.3, 0.6])
                 parameters.append({"name": nm, "dist": "unif", "pars": [round(max(lo * 0.5, th - w_ * rng.uniform(0.2, 0.8)), 4), round(th + w_ * rng.uniform(0.2, 0.8), 4)]})
